@@ -19,7 +19,7 @@ pub struct Unit {
 
 pub const HOSTILE: [&str; 10] = ["plain", "it's", "$(touch CANARY)", "`touch CANARY`", ";touch CANARY", "a\"b", "é ü", "x'; touch CANARY; echo '", "*.(rs|toml)", "(a|b);touch CANARY"];
 pub const TYPED: [&str; 16] = ["", "-", "--", "'", "\"", "$(touch CANARY)", "`touch CANARY`", ";touch CANARY", "a b", "a\nb", "\\", "*", "é", "--zz;x", "--beta=$(touch CANARY)", "--beta="];
-pub const SHAPES: usize = 12;
+pub const SHAPES: usize = 13;
 
 const RAW_BASH: &str = "echo CALL RAWBASH";
 const RAW_ZSH: &str = "echo CALL RAWZSH";
@@ -62,6 +62,12 @@ pub fn shape(k: usize, text: &str) -> Opts {
         // a dynamic completer whose description has two lines (static help is cut at the first
         // line by the library, a description returned by user code is not)
         11 => P::Seq(vec![sw, P::Complete(pos.bx(), CompK::Fixed(vec![("first".into(), Some(format!("{} one\nsecond line", text))), ("second".into(), None)]), None).opt()]),
+        // names and values longer than the 24-column padding of the candidate list
+        12 => P::Seq(vec![
+            sw,
+            P::Arg { names: Names::long("output-directory-override").help(text), ty: Ty::Str, adjacent: false, metavar: "DIRECTORY".into() }.opt(),
+            P::Complete(pos.bx(), CompK::Fixed(vec![("a-dynamic-value-that-is-rather-long-indeed".into(), Some(text.to_string())), ("короткое-но-не-ascii-значение-кандидата".into(), Some("two".into()))]), None).opt(),
+        ]),
         _ => unreachable!(),
     };
     Opts::new(p)
@@ -387,9 +393,16 @@ fn check_line(unit: &Value, p: &bpaf::OptionParser<Val>, argv: &[Tok], bash_case
                                 words.push(format!("G:{}", q[0]));
                                 if q[0] != q[1] {
                                     ok = false;
+                                    ctx.violation(viol("well-formed-directives-with-quoted-data", unit, shell, named, argv, "group name given to -V and -X alike".to_string(), &format!("{:?}", text)));
                                 }
                                 words.push(format!("S:{}", q[2]));
                             } else if sk == "compadd Q" {
+                                // without `--` only the empty word is harmless: anything else
+                                // could be read by compadd as one of its own options
+                                if !q[0].is_empty() {
+                                    ok = false;
+                                    ctx.violation(viol("well-formed-directives-with-quoted-data", unit, shell, named, argv, "data words of compadd follow `--`".to_string(), &format!("{:?}", text)));
+                                }
                                 words.push(format!("S:{}", q[0]));
                             } else if sk.starts_with("_files") {
                                 let d = if sk.contains("-/") { " -/" } else { "" };
@@ -670,10 +683,10 @@ impl Check for C15 {
         }
     }
     fn rule(&self) -> String {
-        "definitions = 12 shapes (a dynamic completer returning a two-line description; two shell completers of the same kind with different masks alive for one word; switch + argument with echoing completer and group + positional with complete_shell File; group_help + File with mask; positional completer echoing the typed word; Dir; Dir with mask; Raw; Nothing; sub-commands with descriptions; fixed-list completer with descriptions) x 10 hostile strings in every help / group / description / mask slot (quotes, $(..), backticks, ;, double quote, non-ASCII, quote-breaking payload, multi-extension masks `*.(rs|toml)` and `(a|b);touch CANARY`); lines = {nothing, -a, --beta, --beta=v, cmd ..} + typed word from 23 words (empty, -, --, quotes, $(touch CANARY), backticks, ;, space, line break, backslash, glob, non-ASCII, --zz;x, --beta=$(..), prefixes); revisions 1/7/8/9 with and without an application name; (a) bash/zsh text lexes into directives of the shell's allowed shapes with every data word single-quoted (independent POSIX quote lexer), fish/elvish one candidate per line; (b) one-to-one correspondence with the candidates and shell completers computed at revision 0 for the same line; (c) every bash text is sourced in /usr/bin/bash with stubbed _init_completion/_filedir inside a scratch directory: COMPREPLY and the recorded calls equal (b), no stderr, no CANARY file; zsh/fish/elvish are not installed: decided by (a)+(b) only".into()
+        "definitions = 13 shapes (names and dynamic values longer than the 24-column padding of the candidate list; a dynamic completer returning a two-line description; two shell completers of the same kind with different masks alive for one word; switch + argument with echoing completer and group + positional with complete_shell File; group_help + File with mask; positional completer echoing the typed word; Dir; Dir with mask; Raw; Nothing; sub-commands with descriptions; fixed-list completer with descriptions) x 10 hostile strings in every help / group / description / mask slot (quotes, $(..), backticks, ;, double quote, non-ASCII, quote-breaking payload, multi-extension masks `*.(rs|toml)` and `(a|b);touch CANARY`); lines = {nothing, -a, --beta, --beta=v, cmd ..} + typed word from 23 words (empty, -, --, quotes, $(touch CANARY), backticks, ;, space, line break, backslash, glob, non-ASCII, --zz;x, --beta=$(..), prefixes); revisions 1/7/8/9 with and without an application name; (a) bash/zsh text lexes into directives of the shell's allowed shapes with every data word single-quoted (independent POSIX quote lexer), fish/elvish one candidate per line; (b) one-to-one correspondence with the candidates and shell completers computed at revision 0 for the same line; (c) every bash text is sourced in /usr/bin/bash with stubbed _init_completion/_filedir inside a scratch directory: COMPREPLY and the recorded calls equal (b), no stderr, no CANARY file; zsh/fish/elvish are not installed: decided by (a)+(b) only".into()
     }
     fn bounds(&self, _tier: Tier) -> Value {
-        json!({"shapes": 12, "hostile_strings": 10, "lines_per_definition": "4-6 typed parts x 23 typed words", "shells": "bash (lexed + executed), zsh / fish / elvish (lexed)"})
+        json!({"shapes": 13, "hostile_strings": 10, "lines_per_definition": "4-6 typed parts x 23 typed words", "shells": "bash (lexed + executed), zsh / fish / elvish (lexed)"})
     }
     fn assumptions(&self) -> Vec<String> {
         vec!["the candidate set of revision 0 is taken as given here (C14 judges it)".into(), "zsh, fish and elvish are not installed in this sandbox; their output is lexed, not executed".into()]
